@@ -494,11 +494,36 @@ class ExprMixin:
 
     def ev_BinOp(self, node, st):
         a, b = self.ev(node.left, st), self.ev(node.right, st)
-        return self.binop(node.op, a, b, node)
+        return self.binop(node.op, a, b, node, st)
 
-    def binop(self, op, a, b, node=None):
+    _BIN_DUNDER = {ast.Add: ("__add__", "__radd__"), ast.Sub: ("__sub__", "__rsub__"), ast.Mult: ("__mul__", "__rmul__")}
+    _CMP_DUNDER = {ast.Eq: ("__eq__", "__eq__"), ast.NotEq: ("__ne__", "__ne__"), ast.Lt: ("__lt__", "__gt__"),
+                   ast.LtE: ("__le__", "__ge__"), ast.Gt: ("__gt__", "__lt__"), ast.GtE: ("__ge__", "__le__")}
+    _NO_DUNDER = object()
+
+    def op_dunder(self, names, a, b, node, st):
+        """Python's operator protocol for an operand that is an object / record of a class whose special method the sidecar
+        supplies as an assumed external `Cls.__op__` (value classes of third-party libraries): a.__op__(b); when a is a plain
+        number (whose own method returns NotImplemented for a foreign operand) the reflected b.__rop__(a).
+        _NO_DUNDER = no such method is declared (the caller goes on as before)"""
+        if names is None or self.spec:
+            return self._NO_DUNDER
+        cands = [(a, b, names[0])] if isinstance(a, (VRef, VRec)) else ([(b, a, names[1])] if is_int(a) or is_real(a) else [])
+        for recv, other, nm in cands:
+            if isinstance(recv, (VRef, VRec)):
+                ext = self.externals.get(f"{recv.cls}.{nm}")
+                if ext is not None:
+                    self.used_externals.add(f"{recv.cls}.{nm}")
+                    return ext(self, [recv, other], {}, node, st)
+        return self._NO_DUNDER
+
+    def binop(self, op, a, b, node=None, st=None):
         if isinstance(a, VVec) or isinstance(b, VVec):
             return self.vec_binop(op, a, b, node)
+        if isinstance(a, (VRef, VRec)) or isinstance(b, (VRef, VRec)):
+            r = self.op_dunder(self._BIN_DUNDER.get(type(op)), a, b, node, st)
+            if r is not self._NO_DUNDER:
+                return r
         if is_conc(a) and is_conc(b) and a is not None and b is not None and not isinstance(op, ast.Div):
             try:
                 return {ast.Add: lambda: a + b, ast.Sub: lambda: a - b, ast.Mult: lambda: a * b,
@@ -605,7 +630,7 @@ class ExprMixin:
                         and self.resolve(f"{left.cls}.__lt__"):
                     c = self.truth(self.call_method(left, "__lt__", [right], {}, node, st))  # a < b is a.__lt__(b)
                 else:
-                    c = self.compare(op, left, right, node)
+                    c = self.compare(op, left, right, node, st)
                 res.append(c)
                 left = right
                 if len(node.ops) > 1:
@@ -616,7 +641,14 @@ class ExprMixin:
                 self.guard.pop()
         return res[0] if len(res) == 1 else AND(*res)
 
-    def compare(self, op, a, b, node=None):
+    def compare(self, op, a, b, node=None, st=None):
+        if (isinstance(a, VRec) or isinstance(b, VRec) or (isinstance(a, VRef) and not isinstance(b, VRef))
+                or (isinstance(b, VRef) and not isinstance(a, VRef))) and st is not None:
+            # comparison operators of a value class whose special method the sidecar supplies (e.g. `expr <= 1` building a
+            # constraint object): see op_dunder
+            r = self.op_dunder(self._CMP_DUNDER.get(type(op)), a, b, node, st)
+            if r is not self._NO_DUNDER:
+                return r
         if isinstance(op, ast.Eq):
             return self.eq(a, b)
         if isinstance(op, ast.NotEq):
